@@ -37,6 +37,38 @@ def _all_under(evs, field, mutex):
     return bad
 
 
+def _drained_exit_atomic(evs, lst, mux, who):
+    """The drainer's exit is ONE critical section: `lock; if i == len(list) { reset list; unlock; return }`.
+    (The model's step `next`/`take` tests for the drained list and resets it atomically; a submitter that gets in
+    between the test and the reset appends to a non-empty list, starts no drainer, and the reset drops its job.)
+    Checked on the event list: every `return` of the drainer directly follows an `unlock mux`; the section that this
+    unlock ends contains the `len(list)` test and touches the list at least twice more (the reset)."""
+    start = next((i for i, e in enumerate(evs) if e["ev"] in ("go", "lit-begin")), None)
+    if start is None:
+        return "%s: no drainer closure found" % who
+    rets = [i for i, e in enumerate(evs) if i > start and e["ev"] == "return"]
+    if not rets:
+        return "%s: the drainer has no return (function restructured?)" % who
+    for r in rets:
+        u = next((i for i in range(r - 1, start, -1) if evs[i]["ev"] == "unlock" and evs[i]["what"] == mux), None)
+        if u is None:
+            return "%s: the drainer returns without having unlocked %s" % (who, mux)
+        between = [e["line"] for e in evs[u + 1:r]]
+        if between:
+            return ("%s: the drainer does something between leaving the critical section of its drained test and "
+                    "returning (test and reset must be one critical section): %s" % (who, between[:3]))
+        l = next((i for i in range(u - 1, start, -1) if evs[i]["ev"] == "lock" and evs[i]["what"] == mux), None)
+        if l is None:
+            return "%s: no lock before the drainer's last unlock" % who
+        sec = evs[l + 1:u]
+        if not any(e["ev"] == "call" and e["what"] == "len(%s)" % lst for e in sec):
+            return "%s: the critical section the drainer returns from does not test len(%s)" % (who, lst)
+        if sum(1 for e in sec if e["ev"] == "sel" and e["what"] == lst) < 3:
+            return ("%s: the critical section of the drained test does not reset %s (test and reset must be one "
+                    "critical section): %s" % (who, lst, [e["line"] for e in sec][:6]))
+    return ""
+
+
 def cs_conn_submit(sc):
     """Execute / MustExecute: closed test, emptiness test and append inside c.mux; execute() called unlocked; no go."""
     for fn in ("Conn.Execute", "Conn.MustExecute"):
@@ -72,6 +104,9 @@ def cs_conn_drainer(sc):
     rets = [e for e in evs if e["ev"] in ("return", "lit-end") and e["held"]]
     if rets or any(e["ev"] == "warn" for e in evs):
         return False, "Conn.execute: a path ends with c.mux held / unmergeable lock state: %s" % [e["line"] for e in rets + [x for x in evs if x["ev"] == "warn"]][:3]
+    bad = _drained_exit_atomic(evs, "c.jobList", "c.mux", "Conn.execute")
+    if bad:
+        return False, bad
     return True, ""
 
 
@@ -90,6 +125,9 @@ def cs_timer_async(sc):
         return False, "Timer.Async: expected exactly one go statement"
     if any(e["ev"] == "warn" for e in evs) or any(e["ev"] in ("return", "lit-end") and e["held"] for e in evs):
         return False, "Timer.Async: a path ends with the mutex held"
+    bad = _drained_exit_atomic(evs, "t.asyncList", "t.asyncMux", "Timer.Async")
+    if bad:
+        return False, bad
     return True, ""
 
 
